@@ -70,6 +70,8 @@ CHECKS = {
         "assumptions": ASSUME_COMMON,
         "jobs": [engine("content", "content", "C03", (1600, 60000)), engine("general", "general", "C03", (800, 30000)), engine("lowlevel", "lowlevel", "C03", (240, 12000)), engine("long", "long", "C03", (48, 1600)),
                  engine("content-dir", "content", "C03", (96, 4000), args={"backend": "fs"}),
+                 engine("bigpacks-deflate", "bigdoc", "any", (32, 800), args={"backend": "mem+flate"}),
+                 engine("bigpacks-brotli-dir", "bigdoc", "any", (16, 400), args={"backend": "fs+brotli"}),
                  engine("content-dir-deflate", "content", "C03", (0, 3000), args={"backend": "fs+flate"}, tier="thorough"),
                  engine("content-sqlite-brotli", "content", "C03", (0, 3000), args={"backend": "sqlite+brotli"}, tier="thorough")],
     },
